@@ -683,7 +683,32 @@ theorem step_checkStmt (s : Nat) :
   | .probe id k p, st, st', inv, _, h => by
     simp only [checkStmt, Res.ok.injEq] at h
     rw [← h]; exact step_refl inv
+  | .param x tag, st, st', inv, _, h => by
+    simp only [checkStmt, Res.ok.injEq] at h
+    rw [← h]; exact step_refl inv
 end
+
+theorem step_declareParams (s : Nat) :
+    ∀ (ps : List (Name × Nat)) (g g' : Graph), Inv g → declareParams s ps g = .ok g' →
+      Step g g' ∧ g'.scopes.length = g.scopes.length := by
+  intro ps
+  induction ps with
+  | nil =>
+    intro g g' inv h
+    simp only [declareParams, Res.ok.injEq] at h
+    subst h; exact ⟨step_refl inv, rfl⟩
+  | cons p rest ih =>
+    intro g g' inv h
+    obtain ⟨x, tag⟩ := p
+    unfold declareParams at h
+    cases hd : g.insertDecl ⟨s, x⟩ (.localv tag) none with
+    | panic q => rw [hd] at h; cases h
+    | err e => rw [hd] at h; cases h
+    | ok g1 =>
+      rw [hd] at h
+      obtain ⟨s1, hl1⟩ := step_insertDecl inv hd
+      obtain ⟨s2, hl2⟩ := ih g1 g' s1.1 h
+      exact ⟨step_trans s1 s2, by rw [hl2, hl1]⟩
 
 theorem step_declareItems (s : Nat) :
     ∀ (items : List Item) (g g' : Graph), Inv g → s < g.scopes.length →
@@ -877,14 +902,22 @@ theorem step_checkItems (s : Nat) :
       simp only at h
       have s0 : Step st.g (st.g.wrap s (.function n)).1 :=
         step_wrap_other inv s _ hs (by intro a b hc; cases hc)
-      cases hb : checkBlock (st.g.wrap s (.function n)).2 body { st with g := (st.g.wrap s (.function n)).1 } with
-      | panic x => rw [hb] at h; cases h
-      | err e => rw [hb] at h; cases h
-      | ok st1 =>
-        rw [hb] at h
-        have s1 := step_checkBlock _ body _ st1 s0.1 (by simp only [wrap_snd, wrap_length]; omega) hb
-        have s01 := step_trans s0 s1
-        exact step_trans s01 (ih st1 st' s1.1 (Nat.lt_of_lt_of_le hs s01.2.1) h)
+      cases hpar : declareParams (st.g.wrap s (.function n)).2 (paramsOf body) (st.g.wrap s (.function n)).1 with
+      | panic x => rw [hpar] at h; cases h
+      | err e => rw [hpar] at h; cases h
+      | ok gp =>
+        rw [hpar] at h
+        simp only at h
+        obtain ⟨sp, hlp⟩ := step_declareParams _ _ _ gp s0.1 hpar
+        cases hb : checkBlock (st.g.wrap s (.function n)).2 body { st with g := gp } with
+        | panic x => rw [hb] at h; cases h
+        | err e => rw [hb] at h; cases h
+        | ok st1 =>
+          rw [hb] at h
+          have s1 := step_checkBlock _ body _ st1 sp.1
+            (by simp only [wrap_snd]; rw [hlp, wrap_length]; omega) hb
+          have s01 := step_trans s0 (step_trans sp s1)
+          exact step_trans s01 (ih st1 st' s1.1 (Nat.lt_of_lt_of_le hs s01.2.1) h)
     | const n tag =>
       unfold checkItems at h
       simp only at h
